@@ -10,6 +10,8 @@ from .tlc import MachineryError
 
 VERIF = tlc.VERIF
 REPO = os.environ.get('ARMULATOR_REPO', '/repo')
+# evidence/ and replays/ go under /verif unless a mutation trial redirects them (tools/try_seed_wt.sh)
+OUTDIR = os.environ.get('VERIF_OUT_DIR') or os.path.dirname(os.path.dirname(os.path.abspath(__file__)))
 
 
 def load_known():
@@ -101,7 +103,7 @@ class Ctx:
         gk = (site, tuple(clauses))
         self._vgroups[gk] = self._vgroups.get(gk, 0) + 1
         if self._vgroups[gk] <= 3 and len(self._vgroups) <= 25:
-            rdir = os.path.join(VERIF, 'replays')
+            rdir = os.path.join(OUTDIR, 'replays')
             os.makedirs(rdir, exist_ok=True)
             path = os.path.join(rdir, '%s-%s-%03d.json' % (self.prop, self.tier, n))
             with open(path, 'w') as f:
@@ -155,8 +157,8 @@ class Ctx:
         ev = {'property_id': self.prop, 'tier': self.tier, 'seed': self.seed, 'level': 'model_checking',
               'coverage': cov, 'assumptions': self.assumptions, 'wall_s': round(wall, 2),
               'violations': len(self.violations)}
-        os.makedirs(os.path.join(VERIF, 'evidence'), exist_ok=True)
-        with open(os.path.join(VERIF, 'evidence', self.prop + '.json'), 'w') as f:
+        os.makedirs(os.path.join(OUTDIR, 'evidence'), exist_ok=True)
+        with open(os.path.join(OUTDIR, 'evidence', self.prop + '.json'), 'w') as f:
             json.dump(ev, f, indent=1, default=str)
         log('%s %s: %d TLC states, %d events, %d behaviours, %d violations, known=%s, %.1fs' % (
             self.prop, self.tier, self.states, self.events, self.behaviours, len(self.violations),
